@@ -275,13 +275,15 @@ PeerSends(c, m) ==
 Running == {t \in Timers : s.tm[t] # Off}
 Pending == {c \in ConnIds : s.conns[c].to # Off}
 Rems == {s.tm[t] : t \in Running} \cup {s.conns[c].to : c \in Pending}
-Tick == /\ Rems # {} /\ \A x \in Rems : x > 0
+Tick == /\ s.booted              \* (the start-up call is due at once: no time passes before it has fired)
+        /\ Rems # {} /\ \A x \in Rems : x > 0
         /\ s' = [[Clr(s) EXCEPT !.trk = s.cur, !.trks = IF s.cur = 0 THEN "none" ELSE s.conns[s.cur].cs] EXCEPT !.tm = [t \in Timers |-> IF s.tm[t] = Off THEN Off ELSE s.tm[t] - 1],
                           !.conns = [c \in ConnIds |-> IF s.conns[c].to = Off THEN s.conns[c] ELSE [s.conns[c] EXCEPT !.to = @ - 1]]]
         /\ ev' = E("tick", 0, "", 0, "")
 TimerFires(t) == /\ s.tm[t] = 0 /\ s' = GC(Fire(Clr(s), t)) /\ ev' = E("fire", 0, "", 0, t)
-Stop == s.booted /\ s' = GC(ManualStop(Clr(s))) /\ ev' = E("stop", 0, "", 0, "")
-Start == s.booted /\ s' = GC(ManualStart(Clr(s))) /\ ev' = E("start", 0, "", 0, "")
+\* (the operator may act before the start-up call has fired: the REST interface is up from the beginning)
+Stop == s' = GC(ManualStop(Clr(s))) /\ ev' = E("stop", 0, "", 0, "")
+Start == s' = GC(ManualStart(Clr(s))) /\ ev' = E("start", 0, "", 0, "")
 
 \* REST requests other than manual-stop/-start (api/v1.py, api/utils.py): sending is gated on Established and writes one
 \* message to the tracked connection; reading, and anything without valid credentials, changes nothing
